@@ -226,7 +226,7 @@ func run(c *engine.Ctx) {
 		}
 	}
 	pieces = append(pieces, piece{"\"\"", ""}, piece{"''", ""}, piece{"'a\nb'", "a\nb"}, piece{"'  x\\n'", "  x\\n"})
-	seps := []string{"+", " + ", "\n+\n", " /*c*/ + // c\n ", "\t+\r\n\t", " +\n      "}
+	seps := []string{"+", " + ", "\n+\n", " /*c*/ + // c\n ", "\t+\r\n\t", " +\n      ", " /*/ c */ + ", " + /**/ /***/ ", " //*/\n + /* // */ "}
 	for _, kw := range keywords {
 		for i, p1 := range pieces {
 			r.one("single", "  "+kw+" "+p1.src+";", kw, p1.val, strings.ContainsAny(p1.src, "\\/+"))
